@@ -393,6 +393,9 @@ def run(tier: str, seed: int) -> int:
         if i % 4 == 2:
             c["upload"] = True
             c["size"] = "l"
+        if i % 5 == 1:
+            # the operation builder modules mention the configured scalar types in their signatures too: "every needed import is emitted"
+            c["cfg"] = dict(c["cfg"], enable_custom_operations=True)
 
     def on_result(case, res):
         r.add(case, res)
